@@ -8,4 +8,10 @@ func propC12(c *Ctx, r *Report) {
 	r.NotDecided = append(r.NotDecided,
 		"pointer-address-dependent behaviour, unsafe, scheduler effects in the Go runtime; byte-identity of outputs as such")
 	c.runResetScopes(r, spirvResetScopes)
+	r.Clauses = append(r.Clauses,
+		"E4 clone freshness: every container (slice / pointer / map, at every access path from the module root) that the code working on a module clone writes through - ir.ProcessOverrides on ir.CloneModuleForOverrides (glsl.Compile with PipelineConstants), the MSL pipeline-constant pass on its own copy, the DXIL inline+sroa+mem2reg+dce pipeline on its clone - is re-allocated by the clone function, so no backend writes into the module it was given")
+	for _, sp := range cloneSpecs {
+		c.runClone(r, "clone.fresh", sp)
+		r.floor("clone."+sp.Name, 3)
+	}
 }
